@@ -1,18 +1,34 @@
 /-
 C37 — DNS message decoding is memory-safe and faithful.
 
-Property theorems only. Model: `SquidModel.Dns.Unpack` (decoder), `SquidModel.Dns.Pack` (query builders);
-lemmas: `SquidModel.Dns.Safe`. All statements are for every byte list (no size bound).
+Property theorems only. Model: `SquidModel.Dns.Unpack` (rfc1035HeaderUnpack / NameUnpack / QueryUnpack / RRUnpack /
+MessageUnpack), `SquidModel.Dns.Pack` (rfc1035HeaderPack / LabelPack / NamePack / QuestionPack / RRPack,
+rfc2671RROptPack, rfc1035BuildAQuery = rfc3596BuildHostQuery). Lemmas: `Dns.Safe`, `Dns.Encode`, `Dns.Roundtrip`,
+`Dns.Counter`. The limits (63, 256, 191, 64, 0x3FFF, 12, 10, 4, type codes) come from `Gen.DnsLimits`, regenerated from
+the staged source every run. Every statement is for all byte lists / all messages: no size bound.
+
+Full statement of the faithfulness part, as the property gives it:
+    for every well-formed message, with or without name compression, the decoded header, question and
+    A/AAAA/PTR/CNAME records equal those encoded.
+It is FALSE of the real code in two regions, proved below as counterexamples:
+  * a name whose decoding needs more than `maxRdepth + 1` = 65 pointer hops is refused (`deep_chain_counterexample`);
+  * a label followed by a pointer that leads to the root label decodes with a trailing dot
+    (`pointer_to_root_counterexample`).
+`unpack_encodes_partial` is the statement with exactly these two regions excluded (they are the hypotheses
+`d ≤ maxRdepth + 1` and `labels ≠ []` of `EncName.ptr` inside `EncMsg`).
 -/
-import SquidModel.Dns.Safe
+import SquidModel.Dns.Roundtrip
+import SquidModel.Dns.Counter
 
 namespace SquidModel.C37
 open SquidModel.Dns SquidModel.Gen.DnsLimits
 
+/-! ## memory safety and termination -/
+
 /-- For every datagram rfc1035MessageUnpack terminates (the iteration budget of the model is never exhausted, pointer
 loops included), never reads outside the datagram, never stores outside a name buffer, never fails an assert; it
-returns either `-15` without a message, or a message with NUL-terminated names inside their buffers and `-rcode` or
-the number of unpacked records (≤ ANCOUNT). -/
+returns either `-15` without a message, or a message with NUL-terminated names inside their 256-byte buffers and
+`-rcode` or the number of unpacked records (≤ ANCOUNT). -/
 theorem unpack_total_no_oob (buf : Bytes) :
     ∃ code msg, messageUnpack buf = .ret code msg ∧ OutSafe (.ret code msg) := by
   have h := messageUnpack_safe buf
@@ -22,11 +38,141 @@ theorem unpack_total_no_oob (buf : Bytes) :
   | abort => simp [hm, OutSafe] at h
   | fuel => simp [hm, OutSafe] at h
 
-/-- The same for rfc1035NameUnpack alone, with any name buffer size `ns > 0`, any start offset: it returns 1, or
-returns 0 with `*off ≤ sz`, at most `ns` bytes stored the last of which is NUL, and the rdlength counter advanced by
-at most the number of bytes stored. -/
+/-- The same for rfc1035NameUnpack alone, for any name buffer size `ns > 0` and any start offset: it returns 1, or it
+returns 0 with `*off ≤ sz`, at most `ns` bytes stored the last of which is NUL, and the `unsigned short` rdlength
+counter advanced by at most the number of bytes stored (so it cannot wrap). -/
 theorem name_unpack_total_no_oob (buf : Bytes) (off ns : Nat) (hns : 0 < ns) :
     NameSafe buf ns 0 0 (nameUnpack buf off ns) :=
   nameUnpack_safe buf off ns hns
+
+/-- compression-pointer loops are refused, not followed forever: a pointer to itself, a two-cycle, a loop through a
+label (which stops when the name buffer is full) -/
+example : nameUnpack [192, 0] 0 nameBufSz = .err := by decide +kernel
+example : nameUnpack [192, 2, 192, 0] 0 nameBufSz = .err := by decide +kernel
+example : nameUnpack [1, 97, 192, 0] 0 nameBufSz = .err := by decide +kernel
+example : messageUnpack [0x12, 0x34, 0x81, 0x80, 0, 1, 0, 0, 0, 0, 0, 0, 192, 12, 0, 1, 0, 1] = .ret (-15) none := by decide +kernel
+
+/-! ## faithfulness -/
+
+/-- **Names.** If `labels` is encoded at `off` (labels of 1..63 octets, compression pointers to encodings of the rest
+of the name anywhere in the datagram, `d ≤ 65` pointer hops, no pointer to a bare root label) and the dotted name with
+its NUL fits the 256-byte buffer, rfc1035NameUnpack returns 0, leaves `*off` at the end of the linear part, reports
+the wire length of the labels, and stores exactly the labels joined by '.' and a NUL. -/
+theorem name_unpack_encodes_partial (buf : Bytes) (d off e : Nat) (labels : List Bytes)
+    (henc : EncName buf d off labels e) (hd : d ≤ maxRdepth + 1) (hfit : wireLen labels < nameBufSz) :
+    nameUnpack buf off nameBufSz = .ok ⟨e, wireLen labels, nameOut labels⟩ :=
+  nameUnpack_enc henc hd hfit
+
+/-- **Records.** An encoded resource record (owner name possibly compressed; PTR target possibly compressed and inside
+its RDATA; A, AAAA, CNAME and every other type as raw RDATA) is unpacked to exactly that record, and `*off` ends
+behind it. -/
+theorem record_unpack_encodes_partial (buf : Bytes) (off off' : Nat) (rr : RR) (h : EncRR buf off rr off') :
+    rrUnpack buf off = .ok (rr, off') :=
+  rrUnpack_enc h
+
+/-- **Messages.** If the datagram carries the message `m` (header at 0, one question, `ANCOUNT = m.answers.length`
+encoded records, anything behind them), rfc1035MessageUnpack returns the header, the question and all answer records
+as encoded, with result `ANCOUNT` — or, when RCODE ≠ 0, header and question with result `-RCODE`. -/
+theorem unpack_encodes_partial (buf : Bytes) (m : Msg) (h : EncMsg buf m) :
+    messageUnpack buf =
+      if m.hdr.rcode ≠ 0 then .ret (-(m.hdr.rcode : Int)) (some { m with answers := [] })
+      else .ret (m.answers.length : Int) (some m) :=
+  messageUnpack_enc h
+
+/-- the encoding relation does not depend on what follows (authority/additional sections, padding) -/
+theorem encoding_ignores_trailing_octets (buf x : Bytes) (d off e : Nat) (labels : List Bytes)
+    (h : EncName buf d off labels e) : EncName (buf ++ x) d off labels e :=
+  h.append_right x
+
+/-- **Header.** rfc1035HeaderUnpack undoes rfc1035HeaderPack for every header whose members are in their C ranges. -/
+theorem header_roundtrip (h : Header) (hwf : h.wf) (sz : Nat) (hsz : 12 ≤ sz) :
+    ∃ b, headerPack sz h = .ok b ∧ b.length = 12 ∧ headerUnpack b = .ok h :=
+  header_pack_unpack h hwf sz hsz
+
+/-- **A packed query decodes back to itself.** For a host name whose pieces between dots are `labels` (each 1..63
+octets) and which is shorter than the name buffer, and a buffer with room for the packet, rfc1035BuildAQuery /
+rfc1035BuildPTRQuery / rfc3596BuildHostQuery produce a packet of exactly 12 + name + 4 (+ 11 with EDNS) octets which
+rfc1035MessageUnpack decodes to: result 0, id `qid`, only RD set, one question with the dotted name, the query type,
+class IN, no records, ARCOUNT = 1 exactly with EDNS; the `rfc1035_query` handed back describes the same question. -/
+theorem query_roundtrip (sz : Nat) (host : Bytes) (labels : List Bytes) (qid qtype : Nat) (edns : Int)
+    (htok : tokens host = labels)
+    (hlab : ∀ l ∈ labels, 1 ≤ l.length ∧ l.length ≤ maxLabelSz)
+    (hfit : wireLen labels < nameBufSz)
+    (hsz : 12 + wireLen labels + 1 + 4 + (if edns > 0 then 11 else 0) ≤ sz) :
+    ∃ b, buildQuery sz host qid qtype edns = .ok b ∧ b.ub = decide (edns > 0) ∧
+      b.pkt.length = 12 + wireLen labels + 1 + 4 + (if edns > 0 then 11 else 0) ∧
+      b.qname = host.take (nameBufSz - 1) ∧ b.qtype = qtype % 65536 ∧ b.qclass = classIN ∧
+      messageUnpack b.pkt = .ret 0 (some
+        ⟨queryHeader qid (if edns > 0 then 1 else 0), ⟨nameOut labels, qtype % 65536, classIN⟩, []⟩) :=
+  query_pack_unpack sz host labels qid qtype edns htok hlab hfit hsz
+
+/-! ## where the real code departs from the property (known findings) -/
+
+/-- 66 pointer hops: `chainBuf 66` is `01 'a' 00` followed by 66 pointers, each two octets pointing to the previous
+name (strictly backwards, no loop). Its last name is an encoding of "a" by the rules of `EncName`, and the decoder
+refuses it; the same chain one pointer shorter decodes. -/
+theorem deep_chain_counterexample :
+    EncName (chainBuf 66) 66 (chainStart 66) [[97]] (chainStart 66 + 2) ∧
+    nameUnpack (chainBuf 66) (chainStart 66) nameBufSz = .err ∧
+    nameUnpack (chainBuf 65) (chainStart 65) nameBufSz = .ok ⟨133, 2, [97, 0]⟩ :=
+  ⟨chain_enc 66 (by omega), chain66_rejected, chain65_decodes⟩
+
+/-- `03 'foo' C0 06 00`: the label "foo", then a pointer to the root label at offset 6 — the name "foo". The decoder
+stores "foo." (and counts 4), while the same name without the pointer is stored as "foo". -/
+theorem pointer_to_root_counterexample :
+    nameUnpack [3, 102, 111, 111, 192, 6, 0] 0 nameBufSz = .ok ⟨6, 4, [102, 111, 111, 46, 0]⟩ ∧
+    nameUnpack [3, 102, 111, 111, 0] 0 nameBufSz = .ok ⟨5, 4, [102, 111, 111, 0]⟩ :=
+  ⟨ptr_to_root_decodes_with_dot, plain_decodes_without_dot⟩
+
+/-- every query built with EDNS passes through `memcpy(buf + off, nullptr, 0)` in rfc1035RRPack (undefined behaviour) -/
+theorem edns_query_memcpy_null_counterexample (sz : Nat) (host : Bytes) (labels : List Bytes) (qid qtype : Nat) (edns : Int)
+    (htok : tokens host = labels) (hlab : ∀ l ∈ labels, 1 ≤ l.length ∧ l.length ≤ maxLabelSz)
+    (hfit : wireLen labels < nameBufSz) (he : edns > 0) (hsz : 12 + wireLen labels + 1 + 4 + 11 ≤ sz) :
+    ∃ b, buildQuery sz host qid qtype edns = .ok b ∧ b.ub = true := by
+  obtain ⟨b, hb, hub, _⟩ := query_pack_unpack sz host labels qid qtype edns htok hlab hfit (by simpa [he] using hsz)
+  exact ⟨b, hb, by simpa [he] using hub⟩
+
+/-! ## the hypotheses are satisfiable, the relations are not vacuous -/
+
+/-- a response with a compressed owner name: id 0x1234, QR RD RA, question "a" A IN, answer `C0 0C` A IN ttl 5 1.2.3.4 -/
+def samplePkt : Bytes :=
+  [0x12, 0x34, 0x81, 0x80, 0, 1, 0, 1, 0, 0, 0, 0,
+   1, 97, 0, 0, 1, 0, 1,
+   192, 12, 0, 1, 0, 1, 0, 0, 0, 5, 0, 4, 1, 2, 3, 4]
+
+def sampleMsg : Msg :=
+  ⟨{ id := 0x1234, qr := 1, opcode := 0, aa := 0, tc := 0, rd := 1, ra := 1, rcode := 0,
+     qdcount := 1, ancount := 1, nscount := 0, arcount := 0 },
+   ⟨[97, 0], 1, 1⟩,
+   [⟨[97, 0], 1, 1, 5, 4, [1, 2, 3, 4]⟩]⟩
+
+theorem sample_name : EncName samplePkt 0 12 [[97]] 15 :=
+  EncName.label (c := 1) (by decide) (by decide) (by decide) (by decide) (by decide)
+    (EncName.root (c := 0) (by decide) (by decide))
+
+theorem sample_encodes : EncMsg samplePkt sampleMsg := by
+  refine ⟨by simp [Header.wf, sampleMsg], by decide, rfl, rfl, 0, 15, [[97]], sample_name, by decide, by decide, rfl,
+          by decide, by decide, by decide, ?_⟩
+  refine EncRRs.cons (off' := 35) ?_ EncRRs.nil
+  have hptr : EncName samplePkt 1 19 [[97]] 21 :=
+    EncName.ptr (e' := 15) (hi := 192) (lo := 12) (by decide) (by decide) (by decide) (by exact sample_name) (by decide)
+  exact EncRR.raw (rdata := [1, 2, 3, 4]) hptr (by decide) (by decide) (by decide) (by decide) (by decide) (by decide)
+    (by decide) (by decide)
+
+/-- and the decoder, evaluated, agrees with the theorem -/
+example : messageUnpack samplePkt = .ret 1 (some sampleMsg) := by decide +kernel
+example : messageUnpack samplePkt = .ret 1 (some sampleMsg) := by
+  simpa [sampleMsg] using unpack_encodes_partial samplePkt sampleMsg sample_encodes
+
+/-- the recognisers reject: a truncated datagram, a reserved label type, a label running past the end -/
+example : messageUnpack (samplePkt.take 34) = .ret (-15) none := by decide +kernel
+example : nameUnpack [64, 0] 0 nameBufSz = .err := by decide +kernel
+example : nameUnpack [2, 97] 0 nameBufSz = .err := by decide +kernel
+/-- `NameSafe` is not trivially true -/
+example : ¬ NameSafe [] 1 0 0 (.oob : R NameRes) := by simp [NameSafe]
+example : ¬ OutSafe .fuel := by simp [OutSafe]
+/-- a query: "ab.c" A, id 7, no EDNS -/
+example : buildQuery 512 [97, 98, 46, 99] 7 1 0 =
+    .ok ⟨[0, 7, 1, 0, 0, 1, 0, 0, 0, 0, 0, 0, 2, 97, 98, 1, 99, 0, 0, 1, 0, 1], false, [97, 98, 46, 99], 1, 1⟩ := by decide +kernel
 
 end SquidModel.C37
